@@ -25,10 +25,56 @@ extern "C" void vf_stub_MakeEmpty(Manifold::Impl* self, int status) {
   g_emptied++;
 }
 #endif
+static uint32_t g_startID = 0, g_numIDs = 0;
 extern "C" uint32_t vf_stub_ReserveIDs(uint32_t n) {
   uint32_t r = vf_nondet_u32();
   vf_assume(r < 1000000 && n < 1000000);
+  g_startID = r;
+  g_numIDs = n;
   return r;
+}
+// Handoff contract (obligations handoff*): instead of ending the success path
+// at the call of CreateHalfedges, that call is redirected here and the state
+// the ladder hands to the rest of the library is checked: it is what
+// CreateHalfedges, Transform, Compose and the GetMeshGL export index with
+// WITHOUT re-validating.
+extern "C" void vf_stub_CreateHalfedges(Manifold::Impl* self, const Vec<ivec3>* triProp,
+                                        const Vec<ivec3>* triVert) {
+  const size_t nT = triProp->size();
+  const size_t nV = self->vertPos_.size();
+  const size_t nP = self->numProp_;
+  VF_ASSERT(g_emptied == 0);
+  VF_ASSERT(triVert->size() == 0 || triVert->size() == nT);
+  // one TriRef per kept triangle (or none at all when the mesh has no triangles)
+  VF_ASSERT(self->meshRelation_.triRef.size() == nT);
+  // property rows: numProp_ values per input vertex, nothing dangling
+  VF_ASSERT(self->properties_.size() == nV * nP);
+  for (size_t t = 0; t < nT && t < 4; t++)
+    for (int j = 0; j < 3; j++) {
+      VF_ASSERT((*triProp)[t][j] >= 0 && (size_t)(*triProp)[t][j] < nV);
+      if (triVert->size() != 0) VF_ASSERT((*triVert)[t][j] >= 0 && (size_t)(*triVert)[t][j] < nV);
+    }
+  // every run was registered; a run may only claim normals (hasNormals: the
+  // export and Transform then treat property slots 0..2 as a vector) when
+  // there ARE three property slots
+  // (ReserveIDs is a one-line atomic fetch_add that clang inlines into the
+  // constructor, so the ids are read back from the relation map itself)
+  size_t nRel = 0;
+  for (const auto& kv : self->meshRelation_.meshIDtransform) {
+    nRel++;
+    if (kv.second.hasNormals) VF_ASSERT(nP >= 3);
+  }
+  VF_ASSERT(nRel >= 1 && nRel <= 2);
+  for (size_t t = 0; t < nT && t < 4; t++) {
+    const int id = self->meshRelation_.triRef[t].meshID;
+    VF_ASSERT(self->meshRelation_.meshIDtransform.find(id) != self->meshRelation_.meshIDtransform.end());
+  }
+  // tangents: none, or one per halfedge of the INPUT triangle list
+  VF_ASSERT(self->halfedgeTangent_.size() == 0 || self->halfedgeTangent_.size() % 3 == 0);
+#ifdef VF_WITNESS
+  vf_witness();
+#endif
+  vf_cut();
 }
 
 template <typename T> static T nd();
@@ -83,12 +129,20 @@ static void ingest() {
 #ifdef VF_EXCLUDE_KNOWN
   VF_EXCLUDE_KNOWN
 #endif
+  {  // ReserveIDs is inlined by clang (the redirect above only catches an
+     // out-of-line call): make the id counter itself arbitrary
+    uint32_t c = vf_nondet_u32();
+    vf_assume(c < 1000000);
+    Manifold::Impl::meshIDCounter_.store(c, std::memory_order_relaxed);
+  }
   Manifold::Impl impl(m, nullptr);
   // reached only on the early returns (the success path ends at the cut):
   // every one of them went through MakeEmpty exactly once
   VF_ASSERT(g_emptied == 1);
   VF_ASSERT(impl.halfedge_.size() == 0);
+#ifndef VF_HANDOFF  // handoff obligations: the witness is the handoff stub itself
   VF_END();
+#endif
 }
 extern "C" void h_ingest64() { ingest<double, uint64_t>(); }
 extern "C" void h_ingest32() { ingest<float, uint32_t>(); }
